@@ -348,7 +348,7 @@ def default_name(ctx) -> None:
                   f"initial fraction store `{stmt_key(st.ast)}` is not `= 1` at the index of the current well", where=w)
     # only for non-empty wells
     nonempty = False
-    for r, pol, raw in fv.rfacts_at(st.id):
+    for r, pol, _br in fv.atoms_at(st.id):
         if isinstance(r, ast.Compare) and len(r.ops) == 1 and isinstance(r.comparators[0], ast.Constant) and r.comparators[0].value == 0:
             lhs = r.left
             same_well = (isinstance(lhs, ast.Subscript) and is_name(lhs.value, "initial_volumes") and key(lhs.slice) == key(idx)) or (
@@ -443,21 +443,33 @@ def trough_names(ctx) -> None:
     ret_names = {getattr(fv.alias_root(n.ast.value, n.id), "id", None) for n in fv.return_nodes()}
     key_stores = [n for n in (fv.cfg.nodes[i] for i in body) if n.kind == "stmt" and isinstance(n.ast, ast.Assign) and isinstance(n.ast.targets[0], ast.Subscript) and isinstance(n.ast.targets[0].value, ast.Name)
                   and n.ast.targets[0].value.id in ret_names]
-    name_var = key_stores[0].ast.value.id if len(key_stores) == 1 and isinstance(key_stores[0].ast.value, ast.Name) else None
-    # default assignments inside the loop
-    defaults = [n for n in (fv.cfg.nodes[i] for i in body) if n.kind == "stmt" and isinstance(n.ast, ast.Assign) and is_name(n.ast.targets[0], name_var)]
-    multi = [n for n in defaults if isinstance(n.ast.value, ast.JoinedStr)]
-    single = [n for n in defaults if is_name(n.ast.value, "name")]
     ok = False
-    if len(multi) == 1 and len(single) == 1:
-        holes = [p for p in template_parts(multi[0].ast.value) if isinstance(p, Hole)]
-        dep = any(any(is_sym(s, "idx") and s.args[0].value == loopid for s in ast.walk(fv.res.resolve(h.expr, multi[0].id))) for h in holes)
-        # guarded by columns > 1
-        g_multi = any(to_cmp(r, pol) == Cmp(Poly.symbol(ast.Name(id="columns", ctx=ast.Load())) - Poly.const(1), ">") for r, pol, raw in fv.rfacts_at(multi[0].id) if isinstance(r, ast.Compare) and len(r.ops) == 1)
-        g_single = any(to_cmp(r, pol) == Cmp(Poly.const(1) - Poly.symbol(ast.Name(id="columns", ctx=ast.Load())), ">=") for r, pol, raw in fv.rfacts_at(single[0].id) if isinstance(r, ast.Compare) and len(r.ops) == 1)
-        ok = dep and g_multi and g_single
-    ctx.rep.check(ok, rule, f"{f.qualname}/default", "multi-column default name contains the column number; single-column default is the trough name",
-                  "the default column names are not column-specific for multi-column troughs / not the trough name for a single column", where=f.where())
+    why = "the default column names are not column-specific for multi-column troughs / not the trough name for a single column"
+    if len(key_stores) == 1:
+        ks = key_stores[0]
+        cols = Poly.symbol(ast.Name(id="columns", ctx=ast.Load()))
+        has_multi = has_single = False
+        bad = None
+        for conds, val in fv.alternatives(ks.ast.value, ks.id):
+            cms = [to_cmp(r, pol) for r, pol in conds if isinstance(r, ast.Compare) and len(r.ops) == 1]
+            if isinstance(val, ast.JoinedStr):
+                holes = [p for p in template_parts(val) if isinstance(p, Hole)]
+                dep = any(any(is_sym(s_, "idx") and s_.args[0].value == loopid for s_ in ast.walk(fv.res.resolve(h.expr, ks.id) if not any(is_sym(x) for x in ast.walk(h.expr)) else h.expr)) for h in holes)
+                if dep and Cmp(cols - Poly.const(1), ">") in cms:
+                    has_multi = True
+                else:
+                    bad = f"default `{show(val)[:50]}` does not contain the column number under columns > 1"
+            elif is_name(val, "name"):
+                if Cmp(Poly.const(1) - cols, ">=") in cms:
+                    has_single = True
+                else:
+                    bad = "the trough name is used as default without establishing columns <= 1"
+            elif isinstance(val, ast.Constant) and isinstance(val.value, str):
+                bad = f"constant default name `{val.value}`"
+        ok = has_multi and has_single and bad is None
+        if bad:
+            why += f" ({bad})"
+    ctx.rep.check(ok, rule, f"{f.qualname}/default", "multi-column default name contains the column number; single-column default is the trough name", why, where=f.where())
     # keys: A{c+1:02d}
     keys = key_stores
     okk = False
